@@ -718,6 +718,13 @@ func derive(kind string, rows []row) {
 			}
 			continue
 		}
+		for _, i := range pick(masks, *genN) {
+			for _, f := range flips {
+				ts := append([]tok{}, r.Toks...)
+				ts[i].N ^= f
+				emit(r, ts, "mask-flip")
+			}
+		}
 		for _, i := range pick(lens, *genN) {
 			for _, h := range hostiles {
 				ts := append([]tok{}, r.Toks...)
